@@ -295,10 +295,10 @@ EXTRA = {
 EXTRA2 = {
     'C01': " The selector contract of C13 (Slicer.__init__ / Plate.__getitem__ for symbolic plate sizes, labelings and selector contents) is re-discharged under this property: `no substance appears in a well that is neither source nor destination` is decided modulo `plate[selector]` addressing the documented wells.",
     'C07': " The selector contract of C13 is re-discharged under this property (`exactly the addressed wells` is decided modulo `plate[selector]` addressing the documented wells).",
-    'C03': " Plate level: `plate.fill_to/dispatch` and `per-well` (every addressed well goes through Container.fill_to, so its refusal is the plate's refusal).",
+    'C03': " Plate level: `plate.fill_to/dispatch` and `per-well` (every addressed well goes through Container.fill_to, so its refusal is the plate's refusal); `plate.transfer/linear`, `dispatch` for container->wells and wells->container (every aliquot is a Container.transfer on the current stock).",
     'C05': " Concentration units may differ per solute (different denominators in one call).",
     'C08': " `steps-kept`: the baked recipe keeps all its steps in order (stage windows are positions in that list).",
-    'C09': " `Recipe.bake/steps-kept`: the baked recipe keeps all its steps in order (stage windows are positions in that list). Unbounded in the number of steps: `inv[step-loop@Recipe.get_substance_used].init/.step` (induction over the step loop, one arbitrary abstract record per step shape) and the code after the loop against TOTAL; the telescoping of TOTAL to the net gain along the bookkeeping chain is a paper lemma.",
+    'C09': " `Recipe.bake/steps-kept`: the baked recipe keeps all its steps in order (stage windows are positions in that list). `ensures[net-gain/asked-again]`: the same question asked again in another unit is answered in that unit. Unbounded in the number of steps: `inv[step-loop@Recipe.get_substance_used].init/.step` (induction over the step loop, one arbitrary abstract record per step shape) and the code after the loop against TOTAL; the telescoping of TOTAL to the net gain along the bookkeeping chain is a paper lemma.",
     'C15': " `Recipe.bake/steps-kept` as in C09. get_container_flows of a CONTAINER is proved for a step list of arbitrary length (induction over the step loop with the two accumulators in/out); per-well arrays of plates stay with the 1..3-record scenarios.",
     'C18': " Config.__init__ (pyplate/__init__.py) is executed by the engine on the yaml data of each setting (file search and yaml parsing dropped), so attributes it computes are what the code under verification sees; the sweep includes the refusal boundaries (over-draw by volume / mass / moles, fill below the current quantity).",
     'C13': " Default row labels are compared with the spreadsheet convention A..Z, AA, AB, ... (bounded, shapes up to the stated bound; native fallback when the constructor is outside the subset).",
